@@ -108,13 +108,25 @@ pub fn parallel_parse(
     let (tx, rx) = bounded::<anyhow::Result<ParsedData>>(100);
 
     let collector_thread = thread::spawn(move || {
+        #[cfg(typeshare_verif)]
+        let _verif_exit = crate::verif::OnDrop("CollectorExit");
+        #[cfg(typeshare_verif)]
+        let rx = crate::verif::reorder(rx);
         let mut crate_parsed_data: BTreeMap<CrateName, ParsedData> = BTreeMap::new();
 
         for result in rx {
+            #[cfg(typeshare_verif)]
+            crate::verif::point(
+                "Recv",
+                &crate::verif::first_name(&result),
+                if result.is_ok() { "ok" } else { "err" },
+            );
             let parsed_data = result?;
             let crate_name = parsed_data.crate_name.clone();
             // Append each yielded parsed data by its respective crate.
             *crate_parsed_data.entry(crate_name).or_default() += parsed_data;
+            #[cfg(typeshare_verif)]
+            crate::verif::point("Fold", "", "");
         }
 
         Ok(crate_parsed_data)
@@ -124,24 +136,50 @@ pub fn parallel_parse(
         let tx = tx.clone();
 
         Box::new(move |result| {
+            #[cfg(typeshare_verif)]
+            let verif_path = result
+                .as_ref()
+                .ok()
+                .map(|d| d.path().to_string_lossy().into_owned())
+                .unwrap_or_default();
             let result = result.context("Failed traversing").and_then(|dir_entry| {
                 parse_dir_entry(parse_context, language_type, &dir_entry)
                     .with_context(|| format!("Parsing failed: {:?}", dir_entry.path()))
             });
+            #[cfg(typeshare_verif)]
+            crate::verif::point(
+                "Parsed",
+                &verif_path,
+                match &result {
+                    Ok(Some(_)) => "ok",
+                    Ok(None) => "none",
+                    Err(_) => "err",
+                },
+            );
             match result {
                 Ok(Some(parsed_data)) => {
+                    #[cfg(typeshare_verif)]
+                    crate::verif::point("SendStart", &verif_path, "ok");
                     tx.send(Ok(parsed_data)).unwrap();
+                    #[cfg(typeshare_verif)]
+                    crate::verif::point("SendEnd", &verif_path, "ok");
                     WalkState::Continue
                 }
                 Ok(None) => WalkState::Continue,
                 Err(err) => {
+                    #[cfg(typeshare_verif)]
+                    crate::verif::point("SendStart", &verif_path, "err");
                     tx.send(Err(err)).unwrap();
+                    #[cfg(typeshare_verif)]
+                    crate::verif::point("SendEnd", &verif_path, "err");
                     WalkState::Quit
                 }
             }
         })
     });
 
+    #[cfg(typeshare_verif)]
+    crate::verif::point("WalkDone", "", "");
     drop(tx);
     collector_thread.join().unwrap()
 }
